@@ -276,6 +276,13 @@ def nest_shape(rng, lit):
 
     body = " ".join("var %s = %s;" % (v, x) for v, x in zip(sorted(names), [init[int(v[3:])] for v in sorted(names)]))
     body += " var i0 = 1; " + updates(0) + " " + build(1) + " "
+    r = rng.random()
+    if r < 0.3:      # a sibling loop right behind the nest: the join block of the nest holds phis only
+        body += "var w = 0; while (w < %s) { w += 1; } " % rng.choice(["n", "m", "2"])
+    elif r < 0.45:
+        body += "while (m > %d) { m -= 1; } " % rng.randrange(3)
+    elif r < 0.6:    # or a second nest over the same variables
+        body += build(1) + " "
     for v in names:
         body += "if (%s == %s) { return %d; } " % (v, init[int(v[3:])], rng.randrange(5))
     body += "return %s;" % " + ".join(names)
